@@ -612,6 +612,10 @@ func (v *VC) evCall(x SCall, env *SpecEnv) TV {
 			specPanic("box needs a typed struct value")
 		}
 		return TV{T: v.makeIface(a.Typ, a.T), Sort: "Iface"}
+	case "ifacestr":
+		// ifacestr(x): the string stored in interface value x (meaningful when x holds a string)
+		a := v.ev(x.Args[0], env)
+		return TV{T: "(is-val " + a.T + ")", Typ: tString}
 	case "ifaceptr":
 		a := v.ev(x.Args[0], env)
 		return TV{T: "(iface-ptr " + a.T + ")", Sort: "Ptr"}
